@@ -172,6 +172,10 @@ _add("ProbCover:alpha", "ProbCover", {"alpha": 0.5, "cluster_algo_dict": {"rando
 _add("ContrastiveAL:nn", "ContrastiveAL", {"nearest_neighbors_dict": {"n_neighbors": 3}, "eps": 1e-3}, ["pwc", "gnb"])
 _add("Falcun:gamma", "Falcun", {"gamma": 1.0}, ["pwc", "gnb"])
 _add("RegressionTreeBasedAL:rep1", "RegressionTreeBasedAL", {"method": "representativity", "max_iter_representativity": 1}, ["tree"], task="reg")
+# a caller-owned clustering dict that does NOT fix the clustering seed: the strategy must derive it from its own
+# random_state on every query, in a copy
+for _c in ("Clue", "DropQuery", "TypiClust", "ProbCover"):
+    _add(f"{_c}:ninit", _c, {"cluster_algo_dict": {"n_init": 1}}, ["pwc"] if _c in ("Clue", "DropQuery") else (None,))
 _add("SubSamplingWrapper:int", "SubSamplingWrapper", {"max_candidates": 2}, ["pwc"], wrap="UncertaintySampling:lc_cost", no14=True, rows=False)
 
 # strategies that need a mapping from candidates to X (feature-row candidates are refused: MappingError)
